@@ -25,12 +25,14 @@ CORR_HEADER = ("From Coq Require Import ZArith QArith List String.\n"
 CHECK_FN = "check_c12"
 SHARD = 100
 F = fractions.Fraction
+KNOWN_SIG_REREG = "reregistration-misaligns-phase-arrays"
 
 RULE = ("one case = one ChargingNetwork driven through <= 30 operations (register_evse in random order incl. re-registration, "
         "add/remove/update_constraint with explicit / default / colliding names, Currents from random expression trees over "
         "all constructor forms, +, -, k*a, a*k, Series operands and the in-place spellings), snapshots (station list, "
         "voltages, matrix or None, constraints_as_df, limits, names) after every failing operation and at random points, "
-        "constraint_current(linear=True) on random name subsets (shuffled, duplicated, unknown names) and time indices "
+        "constraint_current (linear=True, and the default phase-aware form with cos/sin of the registered angles computed by the "
+        "harness) on random name subsets (shuffled, duplicated, unknown names) and time indices "
         "(negative, repeated, empty, out of range); malformed stream: unknown station in a Current, removing/updating a "
         "missing name, registering after constraints exist (also after all were removed), query before the first "
         "constraint, wrong schedule height.  A second stream evaluates expression trees alone (index order and values). "
@@ -39,7 +41,8 @@ ASSUMPTIONS = [
     "coefficients, limits and schedules are finite floats (no NaN/inf given as input); Currents built from a dict / Series have a unique index",
     "pandas > '1.4.0' in the string comparison of add_constraint (the concat branch); asserted by the harness on every run",
     "station names are numbered by their rank in Python string order (pandas sorts the union of two different indexes)",
-    "constraint_current is exercised with linear=True; the phase-aware form belongs to C06",
+    "the phase-aware constraint_current is modelled with cos/sin of the registered angles as inputs (computed by the harness with "
+    "math.cos/sin, independently of the implementation); its magnitudes / feasibility belong to C06",
     "which in-place semantics applies to `a += b` / `a -= b` (the class's own operators, or pandas' reindex-to-left when it "
     "defines none) is read from the class body by tools/gen_c12.py and from Current.__dict__ by the harness on every run; "
     "the two must agree and the correspondence confirms the behaviour",
@@ -296,6 +299,22 @@ def run_impl(ops):
                 ob["full"] = None
             out.append(ob)
             continue
+        if k == "queryp":
+            _, rows, w, C, T = o
+            X = np.array(rows, dtype=float).reshape(len(rows), w)
+            ob = dict(kind="queryp", err=None, re=None, im=None, full_re=None, full_im=None)
+            try:
+                r = np.asarray(net.constraint_current(X, constraints=C, time_indices=T))
+                ob["re"], ob["im"] = mat_list(r.real), mat_list(r.imag)
+            except Exception as e:  # noqa
+                ob["err"] = type(e).__name__
+            try:
+                r = np.asarray(net.constraint_current(X))
+                ob["full_re"], ob["full_im"] = mat_list(r.real), mat_list(r.imag)
+            except Exception as e:  # noqa
+                pass
+            out.append(ob)
+            continue
         ob = dict(kind="step", err=None, cur=None)
         try:
             if k == "register":
@@ -334,16 +353,19 @@ def qmat(m):
     return coq_list([coq_list([coq_opt(v, q) for v in row]) for row in m])
 
 
-def op_coq(o):
+def op_coq(o, trig=()):
     k = o[0]
     if k == "snap":
         return "CSnap"
-    if k == "query":
+    if k in ("query", "queryp"):
         _, rows, w, C, T = o
-        return "(CQuery (mkSched %d%%nat %s) %s %s)" % (
+        body = "(mkSched %d%%nat %s) %s %s" % (
             w, coq_list([coq_list([q(v) for v in r]) for r in rows]),
             coq_opt(C, lambda l: coq_list([coq_str(x) for x in l])),
             coq_opt(T, lambda l: coq_list(["(%d)%%Z" % t for t in l])))
+        if k == "query":
+            return "(CQuery %s)" % body
+        return "(CQueryP %s %s)" % (body, coq_list(["(%s, %s)" % (q(c), q(sn)) for c, sn in trig]))
     if k == "register":
         return "(CRegister %d%%nat %s %s)" % (RANK[o[1]], q(o[2]), q(o[3]))
     if k == "add":
@@ -364,14 +386,29 @@ def obs_coq(b):
             st_list(b["stations"]), coq_list([q(v) for v in b["volts"]]), coq_list([q(v) for v in b["angles"]]),
             coq_opt(b["mat"], qmat), st_list(b["df_cols"]), coq_list([coq_str(x) for x in b["df_idx"]]),
             qmat(b["df_vals"]), coq_list([q(v) for v in b["mags"]]), coq_list([coq_str(x) for x in b["names"]]))
+    if b["kind"] == "queryp":
+        if b["err"] is not None:
+            return "(BQueryP (Err %s))" % coq_str(b["err"])
+        return "(BQueryP (Ok (%s, %s)))" % (qmat(b["re"]), qmat(b["im"]))
     if b["err"] is not None:
         return "(BQuery (Err %s))" % coq_str(b["err"])
     return "(BQuery (Ok %s))" % qmat(b["val"])
 
 
+def trig_lists(ops, obs):
+    """for every op: (cos, sin) of the angles of all successful registrations so far, in order"""
+    angles, out = [], []
+    for o, b in zip(ops, obs):
+        if o[0] == "register" and b.get("err") is None:
+            angles.append(o[3])
+        out.append([(math.cos(math.radians(a)), math.sin(math.radians(a))) for a in angles])
+    return out
+
+
 def case_coq(mode, ops, obs):
+    trigs = trig_lists(ops, obs)
     return "{| k_mode := %s; k_ops := %s;\n   k_obs := %s |}" % (
-        mode, coq_list([op_coq(o) for o in ops]), coq_list([obs_coq(b) for b in obs]))
+        mode, coq_list([op_coq(o, t) for o, t in zip(ops, trigs)]), coq_list([obs_coq(b) for b in obs]))
 
 
 # ---------------------------------------------------------------------------------------------
@@ -404,7 +441,7 @@ def rand_query(rng, nst, names):
         if rng.random() < 0.08:
             T.append(rng.choice([w, -w - 1, w + 3]))
             rng.shuffle(T)
-    return ["query", rows, w, C, T]
+    return ["queryp" if rng.random() < 0.35 else "query", rows, w, C, T]
 
 
 def gen_ops(rng):
@@ -446,7 +483,7 @@ def gen_ops(rng):
             e = [rng.choice(["add", "sub"]), e, wrap] if rng.random() < 0.7 else ["add", wrap, e]
         return e
 
-    while len([o for o in ops if o[0] not in ("snap", "query")]) < budget:
+    while len([o for o in ops if o[0] not in ("snap", "query", "queryp")]) < budget:
         t = rng.random()
         bad = False
         if t < 0.42:
@@ -508,8 +545,8 @@ def make_case(ops, mode=None, shrink_ok=False):
     errs = sorted({b["err"] for b in obs if b.get("err")})
     case["kind"] = "seq/%s" % ("+".join(e[:5] for e in errs) if errs else "clean")
     case["nontrivial"] = nadds > 0
-    case["sig"] = ops
-    if why and shrink_ok:
+    case["sig"] = KNOWN_SIG_REREG if (why and why.startswith(KNOWN_SIG_REREG)) else ops
+    if why and not why.startswith(KNOWN_SIG_REREG) and shrink_ok:
         # the property fails on the implementation: keep a minimised operation list for the replay file
         try:
             inp["shrunk_ops"] = shrink(ops, lambda cand: _fails(cand, mode))
@@ -520,7 +557,7 @@ def make_case(ops, mode=None, shrink_ok=False):
 
 def _fails(ops, mode):
     r = monitor(dict(input=dict(ops=ops, mode=mode), impl=run_impl(ops)))
-    return bool(r)
+    return bool(r) and not r.startswith(KNOWN_SIG_REREG)
 
 
 def corpus():
@@ -629,6 +666,7 @@ class Ref:
 
     def __init__(self):
         self.stations, self.ever, self.live = [], False, []
+        self.reg_log = []        # every successful registration (station, angle), in order
 
     def names(self):
         return [x[0] for x in self.live]
@@ -653,6 +691,7 @@ def monitor(case):
         return check_algebra(case["input"]["expr"], impl["items"])
     ops, obs = case["input"]["ops"], case["impl"]
     ref = Ref()
+    known = None
     for step_no, (o, b) in enumerate(zip(ops, obs)):
         k = o[0]
         where = "op %d %s: " % (step_no, k)
@@ -665,6 +704,7 @@ def monitor(case):
                     return where + "register_evse before any constraint raised %s" % b["err"]
                 if o[1] not in ref.stations:
                     ref.stations.append(o[1])
+                ref.reg_log.append((o[1], o[3]))
         elif k in ("add", "update"):
             items = b.get("cur")
             if items is None:
@@ -757,7 +797,51 @@ def monitor(case):
                             r, c, val[r][c], i, ref.live[i][0], t, want)
                     if b["full"] is not None and not close(b["full"][i][t], val[r][c]):
                         return where + "subset result [%d][%d] differs from the full result [%d][%d]" % (r, c, i, t)
-    return None
+        elif b["kind"] == "queryp":
+            # the default, phase-aware query: sum_k coeff_i(s_k) * X[k][t] * exp(j*angle(s_k))
+            _, rows, w, C, T = o
+            Tn = None
+            if T is not None:
+                Tn = [t if t >= 0 else t + w for t in T]
+                if any(not (-w <= t < w) for t in T):
+                    if b["err"] != "IndexError":
+                        return where + "time index out of range but no IndexError (got %r)" % b["err"]
+                    continue
+            if len(rows) != len(ref.stations):
+                continue      # wrong height: numpy may broadcast a one-row schedule; not judged here
+            rereg = len(ref.reg_log) != len(ref.stations)
+            if not ref.ever:
+                if not rereg and b["err"] != "TypeError":
+                    return where + "query before any constraint: expected TypeError, got %r" % b["err"]
+                continue
+            if b["err"] is not None:
+                if rereg and b["err"] == "ValueError":
+                    twice = sorted({s for s, _ in ref.reg_log if [x for x, _ in ref.reg_log].count(s) > 1})
+                    known = known or (KNOWN_SIG_REREG + ": " + where + "phase-aware constraint_current raises ValueError on a "
+                                      "well-formed schedule: %s registered more than once, _phase_angles has %d entries for %d stations"
+                                      % (twice, len(ref.reg_log), len(ref.stations)))
+                    continue
+                return where + "phase-aware constraint_current raised %s" % b["err"]
+            if rereg:
+                continue
+            ang = dict(ref.reg_log)
+            sel = [i for i, x in enumerate(ref.live) if C is None or x[0] in C]
+            cols = list(range(w)) if Tn is None else Tn
+            for part, fn in (("re", math.cos), ("im", math.sin)):
+                val = b[part]
+                if len(val) != len(sel) or any(len(r) != len(cols) for r in val):
+                    return where + "aggregate currents (%s) have the wrong shape" % part
+                for r, i in enumerate(sel):
+                    for c, t in enumerate(cols):
+                        want = sum(ref.live[i][1].get(s, F(0)) * F(rows[k][t]) * F(fn(math.radians(ang[s])))
+                                   for k, s in enumerate(ref.stations))
+                        if not close(want, val[r][c]):
+                            return where + "aggregate current (%s) [%d][%d] = %r, expected row %d (%r) x period %d = %s" % (
+                                part, r, c, val[r][c], i, ref.live[i][0], t, float(want))
+                        full = b["full_" + part]
+                        if full is not None and not close(full[i][t], val[r][c]):
+                            return where + "subset result (%s) [%d][%d] differs from the full result [%d][%d]" % (part, r, c, i, t)
+    return known
 
 
 # ---------------------------------------------------------------------------------------------
@@ -822,3 +906,21 @@ def replay_known(entry):
     if "ops" in w:
         return replay(dict(case=dict(ops=w["ops"])))
     return "not re-checked"
+
+
+def _open_finding_present():
+    """the findings file is compiled only while the open finding still reproduces"""
+    from harness import core
+    for e in core.known_findings(PID):
+        if e.get("status") == "open" and e.get("sig") == KNOWN_SIG_REREG:
+            try:
+                return bool(replay_known(e))
+            except Exception:  # noqa
+                return False
+    return False
+
+
+try:
+    EXTRA_PROP_FILES = ["coq/Props/C12_findings.v"] if _open_finding_present() else []
+except Exception:  # noqa
+    EXTRA_PROP_FILES = []
